@@ -11,12 +11,13 @@ EXPLANATION = (
     "ARMS lint over all reader loops of netconf and the agent (found by their `match reader.read_resolved_event()?`): "
     "C13/R1 prefix independence — every element arm constrains the resolved namespace (pattern constant or `ns == CONST`) and compares "
     "tag.local_name(), never the prefixed tag.name(); C13/R2 every loop skips Event::Comment; C13/R3 the two document-level loops "
-    "skip the XML declaration (Event::Decl); C13/R4 for every element a loop recognises, Start and Empty forms are handled alike unless the frozen "
-    "justification table records that both spellings are rejected anyway; C13/R5 every value obtained with read_text (raw, untrimmed) "
+    "skip the XML declaration (Event::Decl); C13/R4 `<x/>` and `<x></x>` are handled alike: either every NsReader the crates create is "
+    "configured with expand_empty_elements(true) (then both spellings are one event sequence and every recognised element must have a Start arm), "
+    "or, for every element a loop recognises, Start and Empty forms are handled alike unless the frozen justification table records that both "
+    "spellings are rejected anyway; C13/R5 every value obtained with read_text (raw, untrimmed) "
     "that reaches str::parse / FromStr / a string comparison / Name / a token field passes through str::trim. NsReader::trim_text(true) "
     "is set on every reader the crate creates. Attribute order/quoting and inter-element whitespace are quick-xml's tokenizer "
-    "(assumption). The property as stated does not hold for this code; the listed known findings enumerate where, and any new "
-    "asymmetry or a removed trim()/comment arm is a violation."
+    "(assumption). Any asymmetry, a reader created without the expansion, or a removed trim()/comment arm is a violation."
 )
 
 # (loop label, element) whose one-sided Start/Empty handling makes no observable difference: both spellings are rejected
@@ -63,14 +64,14 @@ def run(ctx):
     loops = R.reader_loops(fx)
     chk.floor("C13 reader loops", len(loops), 23)
     chk.extra["reader_loops"] = [lp.label() for lp in loops]
+    expanded = reader_config(chk, fx)
     for lp in loops:
         chk.analysed(lp.fn)
         r1(chk, lp)
         r2(chk, lp)
-        r4(chk, lp)
+        r4(chk, lp, expanded)
     r3(chk, loops)
     r5(chk, fx)
-    trim_text(chk, fx)
 
 
 def r1(chk, lp):
@@ -111,7 +112,7 @@ def r3(chk, loops):
     chk.floor("C13/R3 document-level loops", n, 2)
 
 
-def r4(chk, lp):
+def r4(chk, lp, expanded):
     by_name = {}
     for a in lp.arms:
         if a.is_element():
@@ -121,6 +122,16 @@ def r4(chk, lp):
         for a in arms:
             kinds |= (a.kinds & {"Start", "Empty"})
         what = "<%s>" % name if name else "(any element)"
+        if expanded:
+            # every reader the crates create expands `<x/>` into Start + End: the two spellings are one event sequence, so they are
+            # handled alike by construction — provided the element is recognised as a Start at all (an Empty-only arm is dead then)
+            ok = "Start" in kinds
+            chk.instance("C13/R4", "%s: %s is recognised as Event::Start (the reader delivers `<x/>` as Start + End, so both spellings take "
+                         "this arm)" % (lp.label(), what), lp.fn, loc_of(arms[0].sp), holds=ok,
+                         key="C13/R4 %s %s Empty-only-under-expansion" % (lp.label(), what),
+                         detail=None if ok else "the readers are configured with expand_empty_elements(true): Event::Empty is never delivered, "
+                         "so neither spelling of this element reaches its arm")
+            continue
         if kinds == {"Start", "Empty"}:
             # handled alike? same arm (or-pattern) or bodies equal
             same = any({"Start", "Empty"} <= a.kinds for a in arms) or len({a.body_text() for a in arms}) == 1
@@ -153,8 +164,10 @@ def r5(chk, fx):
                      detail="whitespace around the token (e.g. pretty-printed '<x> v </x>') changes the parse result")
 
 
-def trim_text(chk, fx):
+def reader_config(chk, fx):
+    """trim_text(true) on every NsReader the crates create (R5); returns whether every one of them also expands empty elements (R4)."""
     n = 0
+    expanded = []
     for name, b in sorted(fx.mir.items()):
         if b.crate not in R.CRATES or "::tests::" in name:
             continue
@@ -165,4 +178,11 @@ def trim_text(chk, fx):
             ok = bool(tt) and all(a.get("i") == 1 for x in tt for a in x.args[1:2])
             chk.instance("C13/R5", "%s: NsReader created with trim_text(true)" % R.short_fn(name), name, c.loc(), holds=ok,
                          key="C13/R5 %s reader-without-trim_text" % R.short_fn(name))
+            ex = [x for x in b.calls() if x.is_fn("expand_empty_elements") and b.dominates(c.bb, x.bb)]
+            on = bool(ex) and all(a.get("i") == 1 for x in ex for a in x.args[1:2])
+            expanded.append(on)
+            chk.instance("C13/R4", "%s: NsReader %s" % (R.short_fn(name), "expands `<x/>` into Start + End (expand_empty_elements(true))" if on
+                                                       else "delivers `<x/>` as Event::Empty: every loop must handle both forms alike"),
+                         name, c.loc(), holds=True)
     chk.floor("C13/R5 NsReader construction sites", n, 2)
+    return bool(expanded) and all(expanded)
